@@ -175,7 +175,24 @@ impl BinCtx {
     }
 
     /// boot listen=flag:N|env:N dir=flag|env allow=none|flag:a,b|env:a,b|flagempty versions=default|flag:K|env:K days=default|flag:K|env:K
+    /// boot: ports are chosen by asking the kernel for a free one and letting go of it again; on a busy machine another
+    /// process may take it before the server binds.  A start that fails is therefore tried again (fresh ports, up to
+    /// three times) before it is reported: a configuration the code cannot start fails every time.
     pub fn boot(&mut self, toks: &[&str]) {
+        let mut last: Vec<String> = vec![];
+        for attempt in 0..3 {
+            let at = self.h.l1.out.len();
+            let ok = self.boot_once(toks);
+            if ok || attempt == 2 {
+                return;
+            }
+            last = self.h.l1.out.split_off(at);
+            std::thread::sleep(Duration::from_millis(300));
+        }
+        let _ = last;
+    }
+
+    fn boot_once(&mut self, toks: &[&str]) -> bool {
         let mut args: Vec<std::ffi::OsString> = vec![];
         let mut envs: Vec<(String, std::ffi::OsString)> = vec![];
         let mut model: Vec<String> = vec![];
@@ -352,6 +369,7 @@ impl BinCtx {
         }
         self.h.l1.out.push(format!("OP boot {}", model.join(" ")));
         self.h.l1.out.push(format!("R booted {} addrs={}", if ok { "up" } else { "FAILED" }, self.addrs.len()));
+        ok
     }
 
     fn spawn(&mut self) -> bool {
@@ -368,7 +386,7 @@ impl BinCtx {
         let child = cmd.spawn().expect("spawn server");
         self.child = Some(child);
         // wait until every address accepts connections
-        let deadline = Instant::now() + Duration::from_secs(10);
+        let deadline = Instant::now() + Duration::from_secs(40);
         for a in self.addrs.clone() {
             loop {
                 if TcpStream::connect(&a).is_ok() {
@@ -548,7 +566,14 @@ impl BinCtx {
                 self.h.l1.out.push("R mark".into());
             }
             ["restart"] => {
-                let ok = self.spawn();
+                // (the ports were given up by the killed process a moment ago; on a busy machine someone else may hold
+                // one briefly: try again before calling it a failure)
+                let mut ok = self.spawn();
+                for _ in 0..2 {
+                    if ok { break; }
+                    std::thread::sleep(Duration::from_millis(1500));
+                    ok = self.spawn();
+                }
                 // the harness's own connection to the directory is re-created as well
                 self.h.l1.open(false);
                 self.h.l1.out.push("OP reopen".into());
